@@ -88,7 +88,9 @@ pub fn setup_dirs() -> (std::path::PathBuf, std::path::PathBuf) {
 
 /// forms that fail (at expansion time, at run time, while importing); repeated N times through
 /// one instance they must not change anything observed through another
-pub const FAILING: &[&str] = &["(cond)", "(when)", "(let ((p 1)))", "(car '())", "(undefined-thing 1)", "(if)", "(vector-ref (vector) 0)", "((lambda (a) a))"];
+pub const FAILING: &[&str] = &["(cond)", "(when)", "(let ((p 1)))", "(car '())", "(undefined-thing 1)", "(if)", "(vector-ref (vector) 0)", "((lambda (a) a))",
+    // macro uses that match a rule and whose EXPANSION is rejected (at depth 1, and nested in valid uses)
+    "(let ((x 1)) (define y x))", "(when #t (let ((x 1)) (define y x)))", "(let ((a 1)) (cond (a (let ((b 2)) (define c b)))))", "(let ((v 1)) (if))", "(begin (lambda))", "(let* ((a 1) (b a)) (define-syntax))"];
 pub const REPEATS: &[usize] = &[1, 8, 63, 64, 65, 200, 1000];
 
 const THIRD_INSTANCE_FORM: &str = "(let ((q 1)) (cond ((= q 1) (when #t (list 'third (or #f q))))))";
